@@ -738,7 +738,16 @@ impl EnvRun {
         };
         let mut now: u64 = 0;
         let mut idle = 0usize;
-        for _ in 0..300_000usize {
+        // Budget: WORKING iterations only (one worker.step = at most MAX_STEP_UNITS = 1000 instruction
+        // units), so a packaging that makes the program loop is reported quickly as StepLimit on that
+        // side (and differs from the other side) instead of stalling the whole check. Idle iterations
+        // are bounded separately below. Both runs of a pair are deterministic and execute the same
+        // instructions up to renaming, so they spend the same budget.
+        let mut worked = 0usize;
+        for _ in 0..2_000_000usize {
+            if worked > 5_000 {
+                break;
+            }
             let mut did = false;
             match self.worker.step(now) {
                 Ok(d) => did |= d,
@@ -756,6 +765,7 @@ impl EnvRun {
                 }
             } else {
                 idle = 0;
+                worked += 1;
             }
             match self.env.poll_request(req) {
                 Ok(Some(RequestResult::Result(Ok((value, heap)), _))) => {
